@@ -132,7 +132,7 @@ def conv_roots(kinds):
         tup = '(%s)' % ', '.join(['Tok'] * N) if N > 1 else '(Tok,)'
         add('r_fromarr_' + K, 'pub fn r_fromarr_%s(a: [Tok; %d]) -> %s { %s::from(a) }' % (K, N, V, K), kind='fromarr', K=K)
         add('r_intoarr_' + K, 'pub fn r_intoarr_%s(v: %s) -> [Tok; %d] { v.into_array() }' % (K, V, N), kind='ident', K=K)
-        if N <= 12:
+        if True:
             add('r_intotup_' + K, 'pub fn r_intotup_%s(v: %s) -> %s { v.into_tuple() }' % (K, V, tup), kind='ident', K=K)
             add('r_fromtup_' + K, 'pub fn r_fromtup_%s(a: %s) -> %s { %s::from(a) }' % (K, tup, V, K), kind='fromtup', K=K)
         add('r_map_' + K, 'pub fn r_map_%s(v: %s) -> %s<core::mem::ManuallyDrop<Tok>> { v.map(core::mem::ManuallyDrop::new) }' % (K, V, K), kind='ident', K=K)
@@ -310,4 +310,4 @@ def run(ctx):
     if not ctx.only: check_local(ctx, sc, roots + croots)
     ctx.floor('iterator states analysed', sum(len(v) for v in kinds_states.values()), 220 if quick else 2992)
     ctx.floor('vector kinds with a model-checked iterator', len(kinds_states), 11 if quick else 13)
-    ctx.floor('conversion / view roots', len(croots), 325)
+    ctx.floor('conversion / view roots', len(croots), 331)
